@@ -22,6 +22,7 @@ import (
 	"github.com/logrange/logrange/pkg/model/field"
 	"github.com/logrange/logrange/pkg/model/tag"
 	"github.com/logrange/logrange/pkg/partition"
+	"github.com/logrange/logrange/pkg/utils"
 	"github.com/logrange/range/pkg/records"
 	rrpc "github.com/logrange/range/pkg/rpc"
 	"github.com/logrange/range/pkg/utils/bytes"
@@ -161,7 +162,7 @@ func (wpi *wpIterator) init(buf []byte) (err error) {
 	var idx int
 	// must be extremely care here. the tags could be stored later and leak to another components,
 	// so arrange them using new buf
-	idx, wpi.tags, err = xbinary.UnmarshalString(buf, true)
+	idx, wpi.tags, err = utils.UnmarshalString(buf, true)
 	if err != nil {
 		return err
 	}
@@ -169,7 +170,7 @@ func (wpi *wpIterator) init(buf []byte) (err error) {
 	var n int
 	var flds string
 	// flds using the buffer, we will transform them to new fields shortly
-	n, flds, err = xbinary.UnmarshalString(buf[idx:], false)
+	n, flds, err = utils.UnmarshalString(buf[idx:], false)
 	if err != nil {
 		return err
 	}
